@@ -22,7 +22,7 @@
    PARTIAL: the parser as a whole is not modelled (only its loops / recursion structure and the expression fragment); the
    type checker and import processing are exercised by the robustness runs only. *)
 From Coq Require Import List String Arith Bool NArith.
-From NV Require Import gen.Tokens gen.ParserConsts Front.RecoveryLoops gen.ParserLoops
+From NV Require Import gen.Tokens gen.ParserConsts Front.RecoveryLoops Front.RecoveryLoopsProofs gen.ParserLoops
                        Front.ExprParser Front.ExprParserMono Front.ExprParserProofs Front.Lexer Front.LexerProofs.
 Import ListNotations.
 
